@@ -618,6 +618,83 @@ PRE4 = PRE4[:PRE4.index("Definition check (c : case)")] + """Definition check (c
 """
 
 
+# the printed string: XV.SerializeDoc.render (the model of XMLFormatter.render, pretty_print=False) on the IMPLEMENTATION's
+# result tree must be the implementation's string, the tree must lie in the fragment dnode_ok and the parser must read the
+# string back (render_parse, evaluated)
+PRE5 = """From Coq Require Import List NArith ZArith Bool. Import ListNotations.
+Require Import XV.Str XV.Placeholder XV.Serialize XV.SerializeDoc.
+Local Open Scope N_scope.
+Notation X := Placeholder.XNode.
+Definition case := (xtree * str)%type.
+Definition DP : str := [100;105;102;102].
+Definition check (c : case) : bool :=
+  let '(t, s) := c in
+  dnode_ok t && str_eqb (render DP t) s &&
+  match parse DP (pneed t) s with Some u => xtree_eqb u (set_tail (knorm t) []) | None => false end.
+"""
+
+
+RENDER_EXAMPLE = ('<a xmlns:diff="http://namespaces.shoobx.com/diff" k="1 &lt; &quot;2&quot;"><b diff:insert="">x &amp; y</b>t'
+                  '<c diff:delete=""/></a>')     # the literal of Properties/C08_render.v, C08_render_example
+
+
+def gen_render_rows(rng, n):
+    """(result-tree, string lxml prints for it) for trees with awkward character data: quotes, angle brackets, ampersands,
+    tabs, line breaks, carriage returns, non-ASCII; diff marks at any depth; built with lxml and printed the way
+    XMLFormatter.format / render do it (cleanup_namespaces with top_nsmap, tounicode, pretty_print=False)."""
+    from xmldiff import formatting as F
+    D_ = "{%s}" % F.DIFF_NS
+    chars = ['a', 'b', ' ', '"', "'", '<', '>', '&', '\t', '\n', '\r', ';', '#', 'é', '\u20ac', '\U0001F600', ']', '-', '=', '/']
+    marks = ["insert", "delete", "rename", "add-attr", "update-attr", "delete-attr", "rename-attr", "insert-formatting"]
+
+    def txt():
+        return "".join(rng.choice(chars) for _ in range(rng.choice([0, 1, 2, 3, 5])))
+
+    def mk(depth):
+        tag = rng.choice(["a", "b", "c-d", "e.f", "_g", D_ + "insert", D_ + "delete", D_ + "replace"]) if depth else rng.choice(["a", "doc"])
+        e = etree.Element(tag)
+        for _ in range(rng.choice([0, 0, 1, 2])):
+            e.set(rng.choice(["k", "j", "x-y", D_ + rng.choice(marks), "old-text"]), txt())
+        if rng.random() < .6:
+            e.text = txt()
+        for _ in range(rng.choice([0, 0, 1, 2, 3]) if depth < 3 else 0):
+            c = mk(depth + 1)
+            e.append(c)
+            if rng.random() < .5:
+                c.tail = txt()
+        return e
+    rows = []
+    ex = etree.fromstring(RENDER_EXAMPLE)
+    rows.append((xcanon(ex), RENDER_EXAMPLE))
+    for _ in range(n):
+        e = mk(0)
+        F.etree.register_namespace(F.DIFF_PREFIX, F.DIFF_NS)
+        etree.cleanup_namespaces(e, top_nsmap={F.DIFF_PREFIX: F.DIFF_NS})
+        rows.append((xcanon(e), etree.tounicode(e, pretty_print=False)))
+    return rows
+
+
+def in_render_fragment(c):
+    """the output tree has no namespace but the diff namespace, and no character XML cannot carry"""
+    D_ = "{http://namespaces.shoobx.com/diff}"
+
+    def name_ok(n):
+        if n.startswith(D_):
+            n = n[len(D_):]
+        return bool(n) and not any(ch in n for ch in ' \t\n\r/><="\'?!&#{}:')
+
+    def walk(t):
+        if not isinstance(t[0], str):
+            return False
+        if t[0].startswith("#"):
+            return False            # comments / processing instructions: printed by lxml with rules of their own
+        if not name_ok(t[0]) or not all(name_ok(k) for k, _ in t[1]):
+            return False
+        return all(walk(k) for k in t[4])
+    # the result tree inherits the namespace declarations of the left document: none may be there
+    return "xmlns" not in c["left"] and walk(c["out"])
+
+
 def attrs_simple(c):
     """the scope of C10_reject_attrs_partial: no namespaced attribute names, no ; : { } in names, no ; { } in values"""
     for s in (c["left"], c["right"]):
@@ -1295,6 +1372,34 @@ def main(run, focus):
                     except OSError:
                         pass
         bad4 = [idx4[i] for i in b4]
+    idx5 = [i for i, c in enumerate(cases) if c.get("supported") and "out" in c and "out_str" in c and c["kind"] != "reserved"
+            and in_render_fragment(c)]
+    bad5, log5 = [], ""
+    if pinfo.get("build_ok") and focus == "C08":
+        cname5 = "%sr%s%d" % (focus, run.tier[0], os.getpid())
+        try:
+            rrows = gen_render_rows(random.Random(run.seed + 3), 300 if run.tier == "quick" else 6000)
+            if etree.tounicode(etree.fromstring(RENDER_EXAMPLE)) != RENDER_EXAMPLE:
+                rrows.append((xcanon(etree.Element("lxml-does-not-print-the-example-of-C08_render-as-stated")), ""))
+            terms = ["(%s, %s)" % (cx(cases[i]["out"]), cs(cases[i]["out_str"])) for i in idx5] + \
+                    ["(%s, %s)" % (cx(t), cs(x)) for t, x in rrows]
+            b5, log5 = lib.run_cases(cname5, PRE5, terms, chunk=max(40, len(terms) // 40 + 1))
+            for j in [j for j in b5 if j >= len(idx5)][:3]:
+                run.log("  printed-string disagreement on a generated tree:", json.dumps(rrows[j - len(idx5)])[:500])
+            nrr = len(rrows)
+            b5 = [j if j < len(idx5) else 0 for j in b5]      # generated rows: reported against the first case
+            if b5 and not idx5:
+                idx5 = [0]
+        finally:
+            for f in os.listdir(lib.CASES):
+                if f.startswith(cname5 + "_") or f.startswith("." + cname5 + "_"):
+                    try:
+                        os.unlink(os.path.join(lib.CASES, f))
+                    except OSError:
+                        pass
+        bad5 = [idx5[i] for i in b5]
+        run.log("printed string: XV.SerializeDoc.render = the implementation's string, fragment dnode_ok, parse reads it back: "
+                "%d formatter outputs + %d generated trees with awkward character data, %d failures" % (len(idx5), nrr, len(bad5)))
     run.log("premises/statements on the model: %d cases, %d failures; attribute premise: %d cases, %d failures; "
             "text-tag updates (premises + flattened readings): %d cases, %d failures"
             % (len(idx2), len(bad2), len(idx3) if focus == "C10" else 0, len(bad3),
@@ -1309,6 +1414,11 @@ def main(run, focus):
                      "(accept T ~ prepared right) / C10 (reject T ~r prepared left, attributes included) evaluated on the "
                      "model's output, configurations without text tags",
              "cases": len(idx2), "bad": bad2, "log": log2, "describe": lambda i: describe(cases[i])}]
+    if focus == "C08":
+        corr.append({"name": "XMLFormatter.render (etree.tounicode after cleanup_namespaces, pretty_print=False) vs XV.SerializeDoc.render, "
+                             "with the premise dnode_ok and the conclusion of C08_render_parses evaluated, on the implementation's result trees "
+                             "that use no namespace but diff",
+                     "cases": len(idx5), "bad": bad5, "log": log5, "describe": lambda i: describe(cases[i])})
     if focus == "C10":
         corr.append({"name": "TESTED premise run_ok_attr of C10_reject_attrs_partial (a name is touched by one attribute action per "
                              "node, no overwriting insert/rename) on documents without namespaced attributes",
